@@ -209,8 +209,9 @@ func search(subject, sub []rel.Value) int {
 			subOffset++
 		} else {
 			if subOffset > 0 && subOffset < len(sub) {
+				// Restart just after the position where the partial match began.
+				subjectOffset -= subOffset
 				subOffset = 0
-				subjectOffset--
 			}
 		}
 		if subOffset == len(sub) {
